@@ -109,7 +109,7 @@ extern "C" int LLVMFuzzerTestOneInput(const uint8_t* data, size_t size) {
   int T = 2 + (int)pick(f, 3);
   std::vector<std::vector<Op>> plan(T);
   size_t total = 0;
-  for (int t = 0; t < T; t++) { int n = 2 + (int)pick(f, 6); for (int i = 0; i < n; i++) { Op o; o.mode = (int)pick(f, 4); o.beh = o.mode == 3 ? NEVER : (int)pick(f, 5); if (o.beh == NEVER && o.mode != 3 && !rare(f, 2)) o.beh = NOW; plan[t].push_back(o); } total += plan[t].size(); }
+  for (int t = 0; t < T; t++) { int n = 2 + (int)pick(f, 6); for (int i = 0; i < n; i++) { Op o; o.mode = (int)pick(f, 4); o.beh = o.mode == 3 ? NEVER : (int)pick(f, 5); if (o.beh == NEVER && o.mode != 3 && !rare(f, 2)) o.beh = NOW; if (o.beh == NEVER && o.mode == 1) o.mode = 0;   /* without a main loop nothing runs DBusTimeouts: only the blocking paths time a call out */ plan[t].push_back(o); } total += plan[t].size(); }
   g_fail_kind.clear(); g_fail_what.clear();
   RawPeer peer;
   DBusConnection* c = peer.connect(false, false);
@@ -120,9 +120,15 @@ extern "C" int LLVMFuzzerTestOneInput(const uint8_t* data, size_t size) {
   std::vector<std::thread> ws; size_t base = 0;
   std::atomic<int> done{0};
   for (int t = 0; t < T; t++) { ws.emplace_back([&, t, base]() { worker(c, t, plan[t], &recs, base); done++; }); base += plan[t].size(); }
+  // usually a "main loop" thread dispatches all the time, so that replies are often taken by dispatch while their caller blocks
+  bool with_dispatcher = !rare(f, 4);
+  std::atomic<bool> dstop{false};
+  std::thread dispatcher;
+  if (with_dispatcher) dispatcher = std::thread([&]() { while (!dstop.load()) dbus_connection_read_write_dispatch(c, 1); });
   auto t0 = std::chrono::steady_clock::now();
   while (done.load() < T) { std::this_thread::sleep_for(std::chrono::milliseconds(2)); if (std::chrono::steady_clock::now() - t0 > std::chrono::seconds(20)) { std::string s; for (auto& r : recs) s += r.token + ":" + r.outcome + " "; violation("hang", "worker threads did not finish within 20 s (deadlock or lost wake-up); calls so far: " + s); } }
   for (auto& w : ws) w.join();
+  dstop = true; if (with_dispatcher) dispatcher.join();
   stop = true; pt.join();
   // drain whatever is left (duplicate replies etc.) on one thread, then close
   for (int i = 0; i < 5; i++) dbus_connection_read_write_dispatch(c, 0);
@@ -139,12 +145,13 @@ extern "C" int LLVMFuzzerTestOneInput(const uint8_t* data, size_t size) {
     if (r.serial == 0) violation("serial-zero", "a call was sent with serial 0\ncalls:\n" + hist);
     if (!serials.insert(r.serial).second) violation("serial-reused", "serial " + std::to_string(r.serial) + " was assigned to two calls\ncalls:\n" + hist);
     if (r.mode == 3) { if (r.notified.load() != 0) violation("cancelled-notified", "the cancelled call " + r.token + " was notified\ncalls:\n" + hist); continue; }
-    if (r.mode == 1 && r.notified.load() != 1) violation("notify-count", "call " + r.token + " was notified " + std::to_string(r.notified.load()) + " times\ncalls:\n" + hist);
+    // (another thread may complete the call between send_with_reply and set_notify; then the function is never called [D dbus_pending_call_set_notify] and completion is observed by polling)
+    if (r.notified.load() > 1) violation("notify-count", "call " + r.token + " was notified " + std::to_string(r.notified.load()) + " times\ncalls:\n" + hist);
     std::string want = r.beh == NEVER ? "error:org.freedesktop.DBus.Error.NoReply" : r.beh == ERR ? "error:com.vp.Failed" : "reply:" + r.token;
     if (r.outcome != want) violation("wrong-completion", "call " + r.token + " completed with '" + r.outcome + "' but its peer behaviour prescribes '" + want + "'\ncalls:\n" + hist);
     nthreads_with_block++;
   }
-  stats_class("threads:" + std::to_string(T));
+  stats_class("threads:" + std::to_string(T) + (with_dispatcher ? "+dispatcher" : ""));
   bool nontrivial = T >= 2 && total >= 6;
   stats_class(nontrivial ? "nontrivial" : "trivial");
   if (nontrivial) { std::string k; for (auto& pl : plan) { for (auto& o : pl) k += std::to_string(o.beh) + "/" + std::to_string(o.mode) + ","; k += "|"; } uint64_t h = fnv1a(k.data(), k.size()); stats_nontrivial(h); if (stats_want_sample(h)) stats_sample(h, "threads x (behaviour/mode): " + k); }
